@@ -48,6 +48,8 @@ def main(argv: list[str]) -> int:
         mod = importlib.import_module(CHECKS[prop])
         if a.replay:
             return _replay(mod, ctx, Path(a.replay))
+        for old in (F.VERIF / "replays").glob(f"{prop}-{a.tier}-*.json"):
+            old.unlink()  # replay files of an earlier run of this check
         rep, meta = mod.run(ctx)
         return _finish(mod, ctx, rep, meta, H.now() - t0)
     except H.HarnessError as e:
